@@ -19,6 +19,9 @@ from ..cfg import must_facts, holds, canon_fact
 from ..rules import settle_sites, check_settles
 from ..mutate import mutate, remove_stmts, replace_expr, replace_stmt, parse_stmt, parse_expr
 from ..model import AnalysisError
+from ..x_syncnorm import normalized
+
+NORM_MODULES = ("tornado/locks.py", "tornado/queues.py", "tornado/gen.py", "tornado/concurrent.py", "tornado/ioloop.py", "tornado/platform/asyncio.py")
 from ..x_sync import check_none_tests, own_walk, guard_models, aug_delta, node_counts, method_call_on, container_uses, exit_states, reaches, lambda_or_func_body_calls, own_find, own_settle_sites
 
 TECHNIQUE = "typestate over the CFG (permit accounting), exhaustive guard folding, settle-discipline and who-may-touch lint"
@@ -448,6 +451,7 @@ def check_ctx(ck, grants):
 
 
 def run(ck):
+    ck.repo = normalized(ck.repo, NORM_MODULES)  # alias / named-boolean / temporary / setter-helper normalisation (vt/x_syncnorm.py)
     ck.rule("C33.acquire-ts", "Semaphore.acquire: every normal path either takes one permit and grants the fresh future, or leaves _value alone and queues that future; the same future is returned")
     ck.rule("C33.release-ts", "Semaphore.release: every normal path either hands the permit to exactly one popped live waiter (net 0) or adds one permit after finding the queue empty; a popped waiter is dropped only if done()")
     ck.rule("C33.grant-guard", "acquire takes a permit only under _value > 0 and queues only under _value <= 0 (guards folded over all small integers)")
